@@ -426,6 +426,11 @@ func (a *oauth2IntrospectionAuthenticator) getCacheTTL(introspectResp *oauth2.In
 		return 0
 	}
 
+	// a token which is about to expire (or is already expired) is not cached at all
+	if introspectResp.Expiry != nil && introspectResp.Expiry.Time().Unix()-time.Now().Unix()-timeLeeway <= 0 {
+		return 0
+	}
+
 	// we cache by default using the settings in the introspection response (if available)
 	// or if ttl has been configured. Latter overwrites the settings in the introspection response
 	// if it is shorter than the ttl in the introspection response
